@@ -58,6 +58,27 @@ def check_serve_health(prop, rec, stage_i):
             raise Violation(f"{prop}/error-report", f"stage {stage_i}: {desc} {pages}")
 
 
+def _failed_after_redeclaration(rec):
+    """A command that was reported FAIL whose step is attached and not FAILED in the end, and
+    that was defined (again) by its creator after it had been started in this build."""
+    failed = [d for t, d, _ in rec.result.events if t == "FAIL"]
+    states = H.step_states(rec.result.tables)
+    log = rec.result.steplog
+    for label in failed:
+        if label not in states or states[label][1] or states[label][0] == 24:
+            continue
+        starts = [e["t"] for e in log if e["op"] == "start" and e["label"] == label]
+        ends = [e["t"] for e in log if e["op"] == "end" and e["label"] == label]
+        for e in log:
+            if e["op"] != "define":
+                continue
+            wd = e.get("workdir", ".")
+            defined = e["cmd"] if wd == "." else f"{e['cmd']}  # wd={wd}"
+            if defined == label and starts and e["t"] > min(starts):
+                return True
+    return False
+
+
 def staleness(spec, tables, prop, where):
     """Oracle 2 and 3 on the tables of a successful build in the current directory."""
     from stepup.core.enums import FileState, StepState
@@ -174,6 +195,14 @@ async def check_history(case, rec, ctx):
             elif _blocked_by_stale_dynamic_input(final) and "PENDING" in _bits(rc_inc) \
                     and "PENDING" not in _bits(rc_scr):
                 sig = f"{PROPERTY}/pending-step-blocked-by-dynamic-input-it-no-longer-amends"
+            elif "FAILED" in _bits(rc_scr) and "FAILED" not in _bits(rc_inc) \
+                    and "DRAINED" in rc_inc and _failed_after_redeclaration(final):
+                # Root-cause refinement (recorded finding): the step was dispatched under its
+                # rerunning creator (it was pending from the previous build) and failed; the
+                # creator then re-declared it, which turns a recycled FAILED step into PENDING.
+                # The failure has drained the build, but neither the FAILED bit nor the
+                # "step(s) failed" warning survives.
+                sig = f"{PROPERTY}/failure-forgotten-when-creator-redeclares-the-failed-step"
             raise Violation(
                 sig,
                 f"incremental build ended {rc_inc}, scratch build of the same sources {rc_scr}; "
